@@ -19,7 +19,6 @@ package storage
 //@ func (MintDB).GetProofsUsed(Ys)
 //@   trusted
 //@   modifies db.faults
-//@   requires @nonempty [C06] len(Ys) >= 1
 //@   ensures db.faults >= old(db.faults)
 //@   ensures err == nil <==> db.faults == old(db.faults)
 //@   ensures !err.is(err, sql.ErrNoRows)
@@ -40,7 +39,6 @@ package storage
 //@ func (MintDB).GetPendingProofs(Ys)
 //@   trusted
 //@   modifies db.faults
-//@   requires @nonempty [C06] len(Ys) >= 1
 //@   ensures db.faults >= old(db.faults)
 //@   ensures err == nil <==> db.faults == old(db.faults)
 //@   ensures !err.is(err, sql.ErrNoRows)
@@ -54,6 +52,7 @@ package storage
 //@   ensures db.faults >= old(db.faults)
 //@   ensures err == nil <==> db.faults == old(db.faults)
 //@   ensures err != nil ==> r0 == nil
+//@   ensures err == nil ==> (forall j :: 0 <= j && j < len(r0) ==> r0[j].Y == Yof(r0[j].Secret))
 //@   ensures err == nil ==> (forall j :: 0 <= j && j < len(r0) ==> db.pending[r0[j].Y] && db.pendrow[r0[j].Y].MeltQuoteId == quoteId && r0[j].Y == db.pendrow[r0[j].Y].Y && r0[j].Amount == db.pendrow[r0[j].Y].Amount && r0[j].Id == db.pendrow[r0[j].Y].Id && r0[j].Secret == db.pendrow[r0[j].Y].Secret && r0[j].C == db.pendrow[r0[j].Y].C && r0[j].Witness == db.pendrow[r0[j].Y].Witness)
 //@   ensures err == nil ==> (forall y Str :: db.pending[y] && db.pendrow[y].MeltQuoteId == quoteId ==> (exists j :: 0 <= j && j < len(r0) && r0[j].Y == y))
 //@   ensures err == nil ==> (forall i, j :: 0 <= i && i < j && j < len(r0) ==> r0[i].Y != r0[j].Y)
@@ -69,7 +68,6 @@ package storage
 //@ func (MintDB).GetBlindSignatures(B_s)
 //@   trusted
 //@   modifies db.faults
-//@   requires @nonempty [C06] len(B_s) >= 1
 //@   ensures db.faults >= old(db.faults)
 //@   ensures err == nil <==> db.faults == old(db.faults)
 //@   ensures err != nil ==> r0 == nil
@@ -86,3 +84,94 @@ package storage
 //@   ensures err == nil ==> (forall b Str :: db.sig[b] <==> (old(db.sig)[b] || exists i :: 0 <= i && i < len(blindSignatures) && B_s[i] == b))
 //@   ensures err == nil ==> (forall b Str :: old(db.sig)[b] ==> db.sigrow[b] == old(db.sigrow)[b])
 //@   ensures err == nil ==> (forall i :: 0 <= i && i < len(blindSignatures) ==> db.sigrow[B_s[i]] == mk.SigRow(blindSignatures[i].Amount, blindSignatures[i].C_, blindSignatures[i].Id, blindSignatures[i].DLEQ.E, blindSignatures[i].DLEQ.S))
+
+// Legal transitions of a stored mint quote (DESIGN.md §8 C03):
+// UNPAID->PAID, PAID->PENDING, PENDING->ISSUED, PENDING->PAID (revert),
+// ISSUED->PAID and PAID->PAID (a new internal payment by a melt).
+//@ macro legalMint(from, to) = (from == nut04.Unpaid && to == nut04.Paid) || (from == nut04.Paid && to == nut04.Pending) || (from == nut04.Pending && to == nut04.Issued) || (from == nut04.Pending && to == nut04.Paid) || (from == nut04.Issued && to == nut04.Paid) || (from == nut04.Paid && to == nut04.Paid)
+// Legal transitions of a stored melt quote (C05): UNPAID->PENDING, PENDING->PAID, PENDING->UNPAID.
+//@ macro legalMelt(from, to) = (from == nut05.Unpaid && to == nut05.Pending) || (from == nut05.Pending && to == nut05.Paid) || (from == nut05.Pending && to == nut05.Unpaid)
+
+// Invariant of stored mint quotes: the state column only ever holds one of the
+// four states (SaveMintQuote / UpdateMintQuoteState write State.String()).
+//@ macro mintinv(r) = r.State == nut04.Unpaid || r.State == nut04.Paid || r.State == nut04.Issued || r.State == nut04.Pending
+
+//@ func (MintDB).SaveMintQuote(mq)
+//@   trusted
+//@   requires @mintinv [C03] mintinv(mq)
+//@   modifies db.mq, db.mqrow, db.faults
+//@   ensures db.faults >= old(db.faults)
+//@   ensures err == nil <==> (db.faults == old(db.faults) && !old(db.mq)[mq.Id])
+//@   ensures err != nil ==> db.mq == old(db.mq) && db.mqrow == old(db.mqrow)
+//@   ensures err == nil ==> db.mq == upd(old(db.mq), mq.Id, true) && db.mqrow == upd(old(db.mqrow), mq.Id, mq)
+
+//@ func (MintDB).GetMintQuote(id)
+//@   trusted
+//@   modifies db.faults
+//@   ensures db.faults >= old(db.faults)
+//@   ensures err == nil <==> (db.faults == old(db.faults) && db.mq[id])
+//@   ensures err == nil ==> r0 == db.mqrow[id] && r0.Id == id && mintinv(r0)
+
+//@ func (MintDB).GetMintQuoteByPaymentHash(hash)
+//@   trusted
+//@   modifies db.faults
+//@   ensures db.faults >= old(db.faults)
+//@   ensures err == nil ==> db.mq[r0.Id] && r0 == db.mqrow[r0.Id] && r0.PaymentHash == hash && mintinv(r0)
+//@   ensures err != nil && db.faults == old(db.faults) ==> (forall q Str :: db.mq[q] ==> db.mqrow[q].PaymentHash != hash)
+//@   ensures err == nil ==> db.faults == old(db.faults)
+
+//@ func (MintDB).UpdateMintQuoteState(quoteId, state)
+//@   trusted
+//@   modifies db.mqrow, db.faults
+//@   requires @legal [C03] db.mq[quoteId] ==> legalMint(db.mqrow[quoteId].State, state)
+//@   ensures db.faults >= old(db.faults)
+//@   ensures err == nil <==> (db.faults == old(db.faults) && db.mq[quoteId])
+//@   ensures err != nil ==> db.mqrow == old(db.mqrow)
+//@   ensures err == nil ==> db.mqrow == upd(old(db.mqrow), quoteId, setfield(old(db.mqrow)[quoteId], "State", state))
+
+// Invariant of stored melt quotes (established by RequestMeltQuote, the only
+// inserter; UpdateMeltQuote does not touch these fields).
+//@ macro meltinv(r) = (r.State == nut05.Unpaid || r.State == nut05.Pending || r.State == nut05.Paid) && (r.State != nut05.Paid ==> r.Preimage == "") && r.Amount <= 9223372036854775 && r.FeeReserve <= r.Amount && (r.IsMpp ==> r.FeeReserve == ln.fee(r.AmountMsat / 1000))
+
+//@ func (MintDB).SaveMeltQuote(mq)
+//@   trusted
+//@   requires @meltinv [C02] meltinv(mq)
+//@   modifies db.melt, db.meltrow, db.faults
+//@   ensures db.faults >= old(db.faults)
+//@   ensures err == nil <==> (db.faults == old(db.faults) && !old(db.melt)[mq.Id])
+//@   ensures err != nil ==> db.melt == old(db.melt) && db.meltrow == old(db.meltrow)
+//@   ensures err == nil ==> db.melt == upd(old(db.melt), mq.Id, true) && db.meltrow == upd(old(db.meltrow), mq.Id, mq)
+
+//@ func (MintDB).GetMeltQuote(id)
+//@   trusted
+//@   modifies db.faults
+//@   ensures db.faults >= old(db.faults)
+//@   ensures err == nil <==> (db.faults == old(db.faults) && db.melt[id])
+//@   ensures err == nil ==> r0 == db.meltrow[id] && r0.Id == id
+//@   ensures err == nil ==> meltinv(r0)
+
+//@ func (MintDB).GetMeltQuoteByPaymentRequest(invoice)
+//@   trusted
+//@   modifies db.faults
+//@   ensures db.faults >= old(db.faults)
+//@   ensures err == nil ==> r0 != nil && db.melt[r0.Id] && *r0 == db.meltrow[r0.Id] && r0.InvoiceRequest == invoice
+//@   ensures err != nil ==> r0 == nil
+//@   ensures err != nil && db.faults == old(db.faults) ==> (forall q Str :: db.melt[q] ==> db.meltrow[q].InvoiceRequest != invoice)
+//@   ensures err == nil ==> db.faults == old(db.faults)
+
+//@ func (MintDB).UpdateMeltQuote(quoteId, preimage, state)
+//@   trusted
+//@   modifies db.meltrow, db.faults
+//@   requires @legal [C05] db.melt[quoteId] ==> legalMelt(db.meltrow[quoteId].State, state)
+//@   ensures db.faults >= old(db.faults)
+//@   ensures err == nil <==> (db.faults == old(db.faults) && db.melt[quoteId])
+//@   ensures err != nil ==> db.meltrow == old(db.meltrow)
+//@   ensures err == nil ==> db.meltrow == upd(old(db.meltrow), quoteId, setfield(setfield(old(db.meltrow)[quoteId], "State", state), "Preimage", preimage))
+
+//@ func (MintDB).GetBlindSignature(B_)
+//@   trusted
+//@   modifies db.faults
+//@   ensures db.faults >= old(db.faults)
+//@   ensures err == nil <==> (db.faults == old(db.faults) && db.sig[B_])
+//@   ensures err == nil ==> r0.Amount == db.sigrow[B_].Amount && r0.C_ == db.sigrow[B_].C_ && r0.Id == db.sigrow[B_].Id && r0.DLEQ != nil && r0.DLEQ.E == db.sigrow[B_].E && r0.DLEQ.S == db.sigrow[B_].S
+//@   ensures err.is(err, sql.ErrNoRows) <==> (err != nil && db.faults == old(db.faults))
